@@ -287,6 +287,17 @@ func c20NoDroppingSend(c *core.Ctx) {
 						name := "local-channel"
 						if fld != nil {
 							name = fld.Name()
+							// a wake-up or stop signal carries nothing that could be lost (chan struct{}, chan bool)
+							if ch, isCh := fld.Type().Underlying().(*types.Chan); isCh {
+								switch et := ch.Elem().Underlying().(type) {
+								case *types.Struct:
+									if et.NumFields() == 0 {
+										fld = nil
+									}
+								case *types.Basic:
+									fld = nil
+								}
+							}
 						}
 						c.Check("send/"+name+"@"+shortFn(fn), "blocking-send", x.Blocking || fld == nil, x.Pos(), "a send on %s inside a select with a default case drops the message when the receiver is busy", name)
 					}
@@ -902,7 +913,66 @@ func c20PartialVerdictUsed(c *core.Ctx) {
 						}
 					}
 					if !under {
-						ok = false
+						// the other order (`err != nil && len(list) == 0`): from the error edge, without taking an empty-list edge, no
+						// return is reached before the list is used (saved, stored into the block)
+						cut := map[[2]*ssa.BasicBlock]bool{}
+						for _, b := range fn.Blocks {
+							ifi := ifOf(b)
+							if ifi == nil {
+								continue
+							}
+							bo, isB := ifi.Cond.(*ssa.BinOp)
+							if !isB {
+								continue
+							}
+							isLen := func(v ssa.Value) bool {
+								call, isCall := v.(*ssa.Call)
+								return isCall && core.BuiltinCallName(call) == "len" && len(rv) > 0 && rv[0] != nil && core.SliceShallow(call.Call.Args[0])[rv[0]]
+							}
+							if !isLen(bo.X) && !isLen(bo.Y) {
+								continue
+							}
+							switch bo.Op {
+							case token.EQL, token.LEQ:
+								cut[[2]*ssa.BasicBlock{b, b.Succs[0]}] = true
+							case token.NEQ, token.GTR:
+								cut[[2]*ssa.BasicBlock{b, b.Succs[1]}] = true
+							}
+						}
+						avoid := map[*ssa.BasicBlock]bool{}
+						if len(rv) > 0 && rv[0] != nil {
+							for _, b := range fn.Blocks {
+								for _, in := range b.Instrs {
+									switch x := in.(type) {
+									case *ssa.Store:
+										if core.SliceShallow(x.Val)[rv[0]] {
+											avoid[b] = true
+										}
+									case *ssa.Call:
+										if core.BuiltinCallName(x) == "" && x != g {
+											for _, a := range x.Call.Args {
+												if core.SliceShallow(a)[rv[0]] {
+													avoid[b] = true
+												}
+											}
+										}
+									}
+								}
+							}
+						}
+						good := len(cut) > 0 && len(avoid) > 0 && !avoid[t.Fail]
+						if good {
+							for b := range core.ReachCutAvoid(t.Fail, cut, avoid) {
+								if len(b.Instrs) > 0 {
+									if _, isRet := b.Instrs[len(b.Instrs)-1].(*ssa.Return); isRet {
+										good = false
+									}
+								}
+							}
+						}
+						if !good && !avoid[t.Fail] {
+							ok = false
+						}
 					}
 				}
 			}
